@@ -244,7 +244,7 @@ class StmtsMixin:
             if v.ty[0] == "dyn" and ann[0] in ("dict", "list"):
                 return V(ann if ann[0] == "list" else ("dict", ("str",), ("dyn",)), dyn_ref(v.term))
             if v.ty[0] == "list" and v.ty[1] == ("dyn",) and ann[0] == "list":
-                return V(ann, v.term, py=v.py)
+                return self.retype_fresh_list(v, ann, st) if ann[1] != ("dyn",) else V(ann, v.term, py=v.py)
         except Unsupported:
             return v
         return v
